@@ -493,7 +493,7 @@ pub fn hasher_write(h: &mut SeaHasher, bytes: &[u8])
         ensures
             /*[C02.hash-whole]*/ hasher.written() == reader.data(),
             old(w).snap.content(file_path.buf()) == Some(reader.data()),
-//@before 0 `Hasher::write(&mut hasher, &buffer[..count]);`
+//@before 0 `Hasher::write(`
         proof {
             let p0 = (reader.pos() - count) as int;
             assert(reader.data().subrange(0, p0) + reader.data().subrange(p0, p0 + count) =~= reader.data().subrange(0, reader.pos() as int));
